@@ -54,7 +54,7 @@ CASES = {"quick": 720, "thorough": len(SHAPES) + 2 * N_TRAMPOLINE_SHAPES}
 REQUIRED = {
     "set:sources": len(SOURCES), "set:terminators": len(TERMINATORS), "set:carriers": len(CARRIERS),
     "set:sched_configs": len(SCHED_CONFIGS), "set:source_x_sched_config": len(PAIRS),
-    "cancelled_within_budget": {"quick": 250, "thorough": 9000},
+    "cancelled_within_budget": {"quick": 250, "thorough": 9000}, "second_subscriptions_checked": {"quick": 25, "thorough": 1000},
     "cancelled_on_trampoline_of_subscribe": {"quick": 180, "thorough": 9000},
     "selfcheck_pull_monitor_fired": 1, "selfcheck_step_monitor_fired": 1, "selfcheck_passing_run_counted": 1,
 }
@@ -848,6 +848,8 @@ def run_case(seed: int, idx: int, res: UnitResult) -> dict:
             res.note("recursion_limit_stops", family + ":" + config)
         elif over > 8:
             res.note("large_overshoot_without_recursion_error", "%s:%s:%s:%s" % (family, config, case["carrier"], case["term"]))
+        if config in TRAMPOLINE_CONFIGS and case["carrier"] in ("none", "elementwise") and case["term"] != "take_until_subject":
+            second_subscription(case, obs, ssched, pulls, res, seed, idx, desc)
         return r
     inline = r["inline_last"]
     if inline:
@@ -861,6 +863,29 @@ def run_case(seed: int, idx: int, res: UnitResult) -> dict:
                          "observed_so_far": show_out(r["out"])},
                   {"seed": seed, "idx": idx})
     return r
+
+
+def second_subscription(case: dict, obs: Any, ssched: Any, pulls: Pulls, res: UnitResult, seed: int, idx: int, desc: dict) -> None:
+    """The same pipeline object subscribed a second time (re-iterable sources, stateless carriers and terminators only):
+    the second subscribe() must again return within the budgets with the same elements - per-subscription state of the
+    early-terminating operator must start fresh, or the source is never cancelled."""
+    pulls.n = 0
+    pulls.inline_first = pulls.inline_last = None
+    r2 = execute(obs, ssched, pulls, case["needed"])
+    res.count("second_subscriptions_checked")
+    why = None
+    kind = "output"
+    if r2["outcome"] == "budget:pulls":
+        kind, why = "not-cancelled", "second subscription: source produced more than needed + %d elements" % SLACK
+    elif r2["outcome"] == "budget:steps":
+        kind, why = "no-return", "second subscription: subscribe() did not return within the step budget"
+    elif r2["outcome"] == "raised":
+        kind, why = "raised", "second subscription: subscribe() raised %s" % show(r2["exc"])
+    else:
+        why = compare(case, r2["out"])
+    if why is not None:
+        res.violation("C14:second-subscription:%s:%s:%s" % (kind, FAMILY[case["source"]], case["term"]),
+                      {"why": why, "case": desc, "pulled": r2["pulls"], "observed_so_far": show_out(r2["out"])}, {"seed": seed, "idx": idx})
 
 
 # --------------------------------------------------------------------------------------------------------------------
